@@ -8,8 +8,10 @@ import (
 	"math"
 	"os"
 	"os/exec"
+	"path/filepath"
 	"runtime"
 	"runtime/debug"
+	"sort"
 	"strings"
 	"time"
 
@@ -28,13 +30,13 @@ import (
 
 func init() {
 	Register(&Scenario{
-		Prop: "C17", Run: scenarioC17, QuickRuns: 2800, ThoroughRuns: 70000, Level: "exploration",
-		Rule:       "one run = one scenario (a world: start genome kind, option swarm, seeded deterministic fitness landscape, k epochs with the sequential executor; or an experiment: Experiment.Execute with the sequential executor and a deterministic scripted evaluator) executed once as the reference and then 1..4 more times from the same tape slice under a tape-chosen perturbation: immediately again; after unrelated work (another world evolved under another seed, heap churn, forced GC); with GOMAXPROCS 1/4/16 and GC percent 1/25/400; inside a fake-clock bubble starting at 2000-01-01 with sleeps of hours to years between epochs (and different evaluator durations for experiments); in a fresh child process of the worker binary with another GOMAXPROCS/GOGC; with another process-wide log level (what loading an unrelated options file leaves behind; loggers silenced). After construction and after every epoch (or at every evaluator entry) the canonical population dump (species ids, ages, improvement ages, membership in order; every genome with floats as bit patterns; population counters) must be identical to the reference. A case is one compared rerun; non-trivial when the scenario produced structural innovations or more than one species; distinct by (scenario hash, perturbation)",
-		RealParts:  []string{"NewPopulation / NewPopulationRandom / ReadPopulation, SequentialPopulationEpochExecutor.NextEpoch with every operator beneath it, Experiment.Execute (sequential)", "math/rand global source seeded by the scenario", "Go runtime: real allocator, collector, map seeds; a real child process for the fresh-process perturbation", "time.Now / time.Since inside Experiment.Execute under the real and under the fake clock"},
-		StubParts:  []string{"fitness assignment (seeded deterministic landscape) / GenerationEvaluator (scripted, deterministic)", "wall clock in the fake-clock perturbation (testing/synctest)"},
+		Prop: "C17", Run: scenarioC17, CLI: true, QuickRuns: 2800, ThoroughRuns: 70000, Level: "exploration",
+		Rule:       "one run = one scenario (a world: start genome kind, option swarm, seeded deterministic fitness landscape, k epochs with the sequential executor; or an experiment: Experiment.Execute with the sequential executor and a deterministic scripted evaluator; or the shipped command-line runner as a child process: XOR experiment, shipped start genome, small drawn configuration, explicit -seed incl. 0, every rerun started at another simulated wall-clock instant, all files of the output directory compared except the two result files that carry measured durations) executed once as the reference and then 1..4 more times from the same tape slice under a tape-chosen perturbation: immediately again; after unrelated work (another world evolved under another seed, heap churn, forced GC); with GOMAXPROCS 1/4/16 and GC percent 1/25/400; inside a fake-clock bubble starting at 2000-01-01 with sleeps of hours to years between epochs (and different evaluator durations for experiments); in a fresh child process of the worker binary with another GOMAXPROCS/GOGC; with another process-wide log level (what loading an unrelated options file leaves behind; loggers silenced). After construction and after every epoch (or at every evaluator entry) the canonical population dump (species ids, ages, improvement ages, membership in order; every genome with floats as bit patterns; population counters) must be identical to the reference. A case is one compared rerun; non-trivial when the scenario produced structural innovations or more than one species; distinct by (scenario hash, perturbation)",
+		RealParts:  []string{"NewPopulation / NewPopulationRandom / ReadPopulation, SequentialPopulationEpochExecutor.NextEpoch with every operator beneath it, Experiment.Execute (sequential)", "math/rand global source seeded by the scenario", "Go runtime: real allocator, collector, map seeds; a real child process for the fresh-process perturbation", "time.Now / time.Since inside Experiment.Execute under the real and under the fake clock", "the command-line runner (executor.go main with the XOR evaluator, real files, real child process), built from the working tree"},
+		StubParts:  []string{"fitness assignment (seeded deterministic landscape) / GenerationEvaluator (scripted, deterministic)", "wall clock in the fake-clock perturbation (testing/synctest)", "time.Now in the command-line runner (calls rewritten in a scratch copy to read VERIF_FAKE_NOW)"},
 		FaultKinds: []string{"fault.clock_jump", "fault.heap_churn_gc", "fault.unrelated_work", "fault.gomaxprocs_change", "fault.gc_setting_change", "fault.fresh_process", "fault.log_level_change"},
 		Assumes:    []string{"the harness module declares go 1.23 so that rand.Seed seeds the global source under the go1.26 toolchain", "a panic inside the library is part of the outcome (both executions must panic at the same step); its text is not compared"},
-		ProbeNames: []string{"probe.rerun.immediately", "probe.rerun.after_unrelated_work", "probe.rerun.runtime_settings", "probe.rerun.fake_clock_jumps", "probe.rerun.fresh_process", "probe.rerun.same_start_object", "probe.rerun.other_log_level", "probe.scenario.world", "probe.scenario.experiment", "probe.structural_innovation", "probe.species>=2", "probe.random_world", "probe.readback_world"},
+		ProbeNames: []string{"probe.rerun.immediately", "probe.rerun.after_unrelated_work", "probe.rerun.runtime_settings", "probe.rerun.fake_clock_jumps", "probe.rerun.fresh_process", "probe.rerun.same_start_object", "probe.rerun.other_log_level", "probe.scenario.world", "probe.scenario.experiment", "probe.scenario.command_line_runner", "probe.structural_innovation", "probe.species>=2", "probe.random_world", "probe.readback_world"},
 	})
 }
 
@@ -69,16 +71,17 @@ func PopDump(pop *genetics.Population) string {
 
 // c17Outcome is what one execution of a scenario lets an observer see.
 type c17Outcome struct {
-	Labels []string // where each dump was taken
-	Dumps  []string
-	Hashes []uint64
-	Desc   string
-	Kind   int
-	Struct bool // structural innovations happened
-	Multi  bool // more than one species at some point
-	Random bool
-	Read   bool
-	Start  *genetics.Genome // the start genome object the execution used (nil for random populations)
+	Labels  []string // where each dump was taken
+	Dumps   []string
+	Hashes  []uint64
+	Desc    string
+	Kind    int
+	Struct  bool // structural innovations happened
+	Multi   bool // more than one species at some point
+	Random  bool
+	Read    bool
+	Start   *genetics.Genome // the start genome object the execution used (nil for random populations)
+	Timeout bool
 }
 
 func (o *c17Outcome) add(label, dump string) {
@@ -116,20 +119,130 @@ func c17Spec(t *Tape, thorough bool) (WorldSpec, int) {
 // scenario; everything else (clock, heap, processors) is the environment under test.
 func runC17(t *Tape, thorough bool, env *c17Env) *c17Outcome {
 	out := &c17Outcome{}
+	out.Kind = t.Pick("c17.kind", 6, 2, 1)
 	body := func() {
-		out.Kind = t.Pick("c17.kind", 3, 1)
-		if out.Kind == 0 {
+		switch out.Kind {
+		case 0:
 			runC17World(t, thorough, env, out)
-		} else {
+		case 1:
 			runC17Experiment(t, thorough, env, out)
+		default:
+			runC17CLI(t, out)
 		}
 	}
-	if env != nil && env.bubble {
+	if env != nil && env.bubble && out.Kind != 2 {
 		InBubble(body)
 	} else {
 		body()
 	}
 	return out
+}
+
+// c17CliNow is the wall-clock second the next execution of the command-line runner is started at (0 = the base
+// instant). The runner is a real child process built from /repo's executor.go in which every time.Now() call reads
+// this simulated clock (rewritten copy, see simctl buildCLI); everything else in it is the shipped code.
+var c17CliNow int64
+
+const c17CliBase = 946684800 // 2000-01-01T00:00:00Z
+
+// runC17CLI runs the shipped experiment runner (package main of the repository) once: XOR experiment, shipped start
+// genome, a tape-drawn small configuration and an explicit -seed (0 included), and records every file it leaves in
+// its output directory except the two result files that carry measured durations.
+func runC17CLI(t *Tape, out *c17Outcome) {
+	bin := os.Getenv("VERIF_CLI_BIN")
+	if bin == "" {
+		panic("harness: VERIF_CLI_BIN is not set for a C17 command-line scenario")
+	}
+	seed := int64(0)
+	switch t.Pick("cli.seedKind", 2, 1, 2) {
+	case 1:
+		seed = 1
+	case 2:
+		seed = int64(t.Draw("cli.seed", 1<<31))
+	}
+	pop := t.Range("cli.pop", 6, 24)
+	gens := t.Range("cli.gens", 1, 4)
+	trials := t.Range("cli.trials", 1, 2)
+	genomeFile := []string{"xorstartgenes", "xordisconnectedstartgenes"}[t.Draw("cli.genome", 2)]
+	out.Desc = fmt.Sprintf("command-line runner: XOR, %s, -seed %d, pop=%d gens=%d trials=%d", genomeFile, seed, pop, gens, trials)
+	dir, err := os.MkdirTemp("", "verif-c17cli-")
+	if err != nil {
+		panic("harness: " + err.Error())
+	}
+	defer os.RemoveAll(dir)
+	tmpl, err := os.ReadFile(RepoDir + "/data/xor_test.neat")
+	if err != nil {
+		panic("harness: " + err.Error())
+	}
+	var cfg []string
+	for _, line := range strings.Split(string(tmpl), "\n") {
+		f := strings.Fields(line)
+		if len(f) >= 2 {
+			switch f[0] {
+			case "pop_size":
+				line = fmt.Sprintf("pop_size %d", pop)
+			case "num_generations":
+				line = fmt.Sprintf("num_generations %d", gens)
+			case "num_runs":
+				line = fmt.Sprintf("num_runs %d", trials)
+			case "print_every":
+				line = "print_every 1"
+			case "log_level":
+				line = "log_level error"
+			}
+		}
+		cfg = append(cfg, line)
+	}
+	ctxFile := dir + "/ctx.neat"
+	if err := os.WriteFile(ctxFile, []byte(strings.Join(cfg, "\n")), 0o644); err != nil {
+		panic("harness: " + err.Error())
+	}
+	now := c17CliBase + c17CliNow
+	outDir := dir + "/out"
+	cmd := exec.Command(bin, "-out", outDir, "-context", ctxFile, "-genome", RepoDir+"/data/"+genomeFile, "-experiment", "XOR", "-seed", fmt.Sprint(seed))
+	cmd.Dir = dir
+	cmd.Env = append(os.Environ(), fmt.Sprintf("VERIF_FAKE_NOW=%d", now))
+	var so bytes.Buffer
+	cmd.Stdout, cmd.Stderr = io.Discard, &so
+	done := make(chan error, 1)
+	if err := cmd.Start(); err != nil {
+		panic("harness: cannot start the command-line runner: " + err.Error())
+	}
+	go func() { done <- cmd.Wait() }()
+	select {
+	case err = <-done:
+	case <-time.After(90 * time.Second):
+		_ = cmd.Process.Kill()
+		<-done
+		out.add("runner", "timeout")
+		out.Timeout = true
+		return
+	}
+	status := "exit 0"
+	if err != nil {
+		status = "failed: " + err.Error()
+	}
+	out.add("runner exit", status)
+	var files []string
+	_ = filepath.Walk(outDir, func(p string, info os.FileInfo, err error) error {
+		if err == nil && !info.IsDir() {
+			files = append(files, p)
+		}
+		return nil
+	})
+	sort.Strings(files)
+	for _, f := range files {
+		rel := strings.TrimPrefix(f, outDir+"/")
+		if strings.HasSuffix(rel, ".dat") || strings.HasSuffix(rel, ".npz") {
+			out.add("file "+rel, "present (carries measured durations; content not compared)")
+			continue
+		}
+		data, _ := os.ReadFile(f)
+		out.add("file "+rel, string(data))
+		if strings.Contains(rel, "gen_") {
+			out.Struct = true
+		}
+	}
 }
 
 func guarded(out *c17Outcome, label string, f func()) (panicked bool) {
@@ -343,6 +456,7 @@ func unrelatedWork(r *SubRNG) {
 // prints the dump hashes.
 func C17ChainJob(job *Job, out io.Writer) int {
 	QuietLogs()
+	fmt.Sscan(os.Getenv("VERIF_C17_CLINOW"), &c17CliNow)
 	o := runC17(NewReplayTape(job.Tape), job.Tier == "thorough", nil)
 	emit(out, map[string]interface{}{"type": "chain", "hashes": o.Hashes, "labels": o.Labels})
 	return 0
@@ -355,7 +469,7 @@ func c17Child(sub []uint32, thorough bool, gomaxprocs, gogc string) (hashes []ui
 	}
 	spec, _ := json.Marshal(&Job{Mode: "c17chain", Prop: "C17", Tier: tier, Tape: sub})
 	cmd := exec.Command(os.Args[0], "-test.run", "^TestSim$", "-test.timeout", "0")
-	cmd.Env = append(os.Environ(), "VERIF_JOB="+string(spec), "GOMAXPROCS="+gomaxprocs, "GOGC="+gogc, "VERIF_WATCHDOG_S=120")
+	cmd.Env = append(os.Environ(), "VERIF_JOB="+string(spec), "GOMAXPROCS="+gomaxprocs, "GOGC="+gogc, "VERIF_WATCHDOG_S=120", fmt.Sprintf("VERIF_C17_CLINOW=%d", c17CliNow))
 	var so, se bytes.Buffer
 	cmd.Stdout, cmd.Stderr = &so, &se
 	if err := cmd.Run(); err != nil {
@@ -384,10 +498,17 @@ func scenarioC17(c *RunCtx) {
 	sub := t.Slice(p0, t.Pos())
 	c.Sample = ref.Desc
 	c.Op("reference execution: %s; %d observation points", ref.Desc, len(ref.Dumps))
-	if ref.Kind == 0 {
+	switch ref.Kind {
+	case 0:
 		c.Count("probe.scenario.world")
-	} else {
+	case 1:
 		c.Count("probe.scenario.experiment")
+	default:
+		c.Count("probe.scenario.command_line_runner")
+		if ref.Timeout {
+			// the runner did not finish (it is outside what this property specifies why); nothing to compare
+			c.Skip("cli-runner-timeout")
+		}
 	}
 	if ref.Struct {
 		c.Count("probe.structural_innovation")
@@ -417,6 +538,12 @@ func scenarioC17(c *RunCtx) {
 		}
 		pert := t.Pick("perturbation", w...)
 		rng := t.Sub("perturbation.seed")
+		if ref.Kind == 2 {
+			// every rerun of the command-line runner starts at another wall-clock instant (seconds to decades later)
+			c17CliNow = 1 + int64(rng.Intn(1<<20))*int64(1+rng.Intn(600))
+			c.Count("fault.clock_jump")
+			c.SimNanos += c17CliNow * int64(time.Second)
+		}
 		var got *c17Outcome
 		detail := ""
 		switch pert {
@@ -498,6 +625,14 @@ func scenarioC17(c *RunCtx) {
 				panic(stopRun{})
 			}
 			got = &c17Outcome{Hashes: hashes, Labels: labels}
+			got.Timeout = len(labels) == 1 && labels[0] == "runner"
+		}
+		if ref.Kind == 2 {
+			detail += fmt.Sprintf(" (runner started %d s after the reference)", c17CliNow)
+			c17CliNow = 0
+			if got.Timeout {
+				c.Skip("cli-runner-timeout")
+			}
 		}
 		c.Op("rerun %d: %s%s -> %d observation points", i, pertNames[pert], detail, len(got.Hashes))
 		// compare
